@@ -12,7 +12,7 @@ def NoRawLineBreak(s: "str") -> "bool":
     return not contains(s, "\n") and not contains(s, "\r")
 
 
-@contract("prov.model._ensure_multiline_string_triple_quoted", props=["C06"])
+@contract("prov.model._ensure_multiline_string_triple_quoted", props=["C06", "C13"])
 def _ensure_multiline_string_triple_quoted(value: "str") -> "str":
     pure()
     note("the choice between the short and the long form is stated on the escaped text, as the code tests it; that "
@@ -23,19 +23,19 @@ def _ensure_multiline_string_triple_quoted(value: "str") -> "str":
     ensures("short-form-has-no-raw-line-break", implies(NoRawLineBreak(Esc(value)), NoRawLineBreak(result)))
 
 
-@contract("prov.identifier.QualifiedName.provn_representation", props=["C06"])
+@contract("prov.identifier.QualifiedName.provn_representation", props=["C06", "C13"])
 def QualifiedName_provn_representation(self: "QN") -> "str":
     pure()
     ensures("quoted-name", result == "'" + qn_str(self) + "'")
 
 
-@contract("prov.identifier.Identifier.provn_representation", props=["C06"])
+@contract("prov.identifier.Identifier.provn_representation", props=["C06", "C13"])
 def Identifier_provn_representation(self: "Ident") -> "str":
     pure()
     ensures("typed-uri", result == '"' + self.uri + '" %% xsd:anyURI')
 
 
-@contract("prov.model.Literal.provn_representation", props=["C06"])
+@contract("prov.model.Literal.provn_representation", props=["C06", "C13"])
 def Literal_provn_representation(self: "Lit") -> "str":
     pure()
     ensures("language-tagged", implies(self.langtag is not None and self.langtag != "",
@@ -48,14 +48,14 @@ def Quoted(s: "str") -> "str":
     return ('"' + Esc(s) + '"') if NoRawLineBreak(Esc(s)) else ('"""' + Esc(s) + '"""')
 
 
-@contract("prov.model.Literal.provn_representation#typed", props=["C06"])
+@contract("prov.model.Literal.provn_representation#typed", props=["C06", "C13"])
 def Literal_provn_representation_typed(self: "Lit") -> "str":
     pure()
     ensures("typed", implies((self.langtag is None or self.langtag == "") and self.datatype is not None,
                              result == Quoted(self.value) + " %% " + qn_str(the(self.datatype))))
 
 
-@contract("prov.model.encoding_provn_value", props=["C06"])
+@contract("prov.model.encoding_provn_value", props=["C06", "C13"])
 def encoding_provn_value(value: "Val") -> "str":
     pure()
     requires("scalar", is_str(value) or is_int(value) or is_bool(value))
